@@ -46,6 +46,9 @@ type mqEv struct {
 type mqCase struct {
 	ID     int             `json:"id"`
 	Script []mqEv          `json:"script"`
+	// SameBlock: every call that sends a block sends the SAME block (as several requests traversing one block do): the
+	// message then carries it once, while each call has reserved memory for it
+	SameBlock bool `json:"sameBlock,omitempty"`
 	Finals json.RawMessage `json:"finals,omitempty"`
 }
 type mqObs struct {
@@ -293,6 +296,10 @@ func runMqCase(c mqCase) (obs mqObs) {
 		idName[id] = r
 		mu.Unlock()
 		s := ra.NewStream(ctx, p, id, &mqSub{r, &mu, &told})
+		if c.SameBlock {
+			// each request de-duplicates in its own bucket, so the shared block is attached for every one of them
+			s.DedupKey("bucket-" + r)
+		}
 		streams[r] = s
 		return s
 	}
@@ -326,7 +333,11 @@ func runMqCase(c mqCase) (obs mqObs) {
 			defer callsWG.Done()
 			_ = st.Transaction(func(rb responseassembler.ResponseBuilder) error {
 				if e.Blk > 0 {
-					data, lk := rawBlock(fmt.Sprintf("mq-%d-%d-%s", c.ID, n, string(make([]byte, e.Blk*1000))))
+					tag := n
+					if c.SameBlock {
+						tag = 0
+					}
+					data, lk := rawBlock(fmt.Sprintf("mq-%d-%d-%s", c.ID, tag, string(make([]byte, e.Blk*1000))))
 					rb.SendResponse(lk, data)
 				}
 				if e.Ext > 0 {
@@ -382,12 +393,44 @@ func runMqCase(c mqCase) (obs mqObs) {
 				}
 				parkedSend = nil
 				if e.Ev == "sendfail" {
-					time.Sleep(110 * time.Millisecond) // the queue waits 100 ms before it gives the message up
+					// the queue waits 100 ms before it gives the message up (or tries again): wait until it has told the
+					// message's subscribers or is sending again, however loaded the machine is
+					toldNow := func() int {
+						mu.Lock()
+						defer mu.Unlock()
+						n := 0
+						for _, v := range told {
+							n += len(v)
+						}
+						return n
+					}
+					t0n := toldNow()
+					time.Sleep(105 * time.Millisecond)
+					for startT := time.Now(); time.Since(startT) < 2*time.Second; time.Sleep(time.Millisecond) {
+						if toldNow() > t0n || len(net.sends) > 0 {
+							break
+						}
+					}
 				}
 				time.Sleep(500 * time.Microsecond)
 			}
 		case "connected":
+			mu.Lock()
+			s0 := started
+			mu.Unlock()
 			pm.Connected(p)
+			if conns == 0 {
+				// a first connection creates the peer's queue: its goroutine must have reported its start before the script
+				// goes on, or a disconnect that follows at once could not be attributed to it
+				for t := time.Now(); time.Since(t) < 500*time.Millisecond; time.Sleep(100 * time.Microsecond) {
+					mu.Lock()
+					ok := started > s0
+					mu.Unlock()
+					if ok {
+						break
+					}
+				}
+			}
 			conns++
 		case "disconnected":
 			if conns == 1 {
